@@ -69,7 +69,7 @@ func (g *TextGen) variable(t *rapid.T) m.Term {
 	return m.Var(rapid.SampledFrom(varPool).Draw(t, "var"))
 }
 
-var textStrings = []string{"a", "b", "file1", "/path/to/file.txt", "", "read", "with space", "tab\there", "ünïcode", "semi;colon", "a,b", "(paren)", "$x", "{p}", "check if", "or", "<-", "1", "true", "//c", "'q'"}
+var textStrings = []string{"a", "b", "file1", "/path/to/file.txt", "", "read", "with space", "tab\there", "ünïcode", "semi;colon", "a,b", "(paren)", "$x", "{p}", "check if", "or", "<-", "1", "true", "//c", "'q'", "two\nlines", "cr\rlf\n"}
 var printableStrings = []string{"a", "b", "file1", "/path/to/file.txt", "", "read", "with space", "ünïcode", "semi;colon", "a,b", "(paren)", "$x", "check if", "or", "<-", "1", "true", "'q'"}
 
 func (g *TextGen) literal(t *rapid.T, allowSet bool) m.Term {
@@ -87,8 +87,12 @@ func (g *TextGen) literal(t *rapid.T, allowSet bool) m.Term {
 		}
 		s := rapid.SampledFrom(pool).Draw(t, "lit.str")
 		if rapid.IntRange(0, 3).Draw(t, "lit.strrnd") == 3 {
-			// any characters except quote, backslash and line breaks
-			s = rapid.StringOfN(rapid.RuneFrom([]rune("abcxyzEH019 _-:/.,;()[]{}$<>=!&|+*'#@%?é日")), 0, 12, -1).Draw(t, "lit.strv")
+			// any characters except quote and backslash ("any utf8 character sequence between double quotes")
+			s = rapid.StringOfN(rapid.RuneFrom([]rune("abcxyzEH019 _-:/.,;()[]{}$<>=!&|+*'#@%?é日\n\t")), 0, 12, -1).Draw(t, "lit.strv")
+			if g.Cfg.Printable {
+				// C15 cuts String() and Code() into elements at line breaks and brackets: no line breaks there
+				s = strings.NewReplacer("\n", "n", "\t", "t").Replace(s)
+			}
 		}
 		if strings.ContainsAny(s, "\\") {
 			s = "plain"
